@@ -583,6 +583,9 @@ func checkC11(w *World, c *Check, tier string) {
 	c.Trusted = []string{"go/types, go/ssa", "apcheck abstract interpreter, prov.go"}
 	c.floor("C11.impl", 13)
 	c.floor("C11.walk", 12)
+	// CleanRecipients and the walk skip what is not an object: the kind predicates of the struct types are constants
+	c.floor("C11.accessor", 28)
+	checkAccessors(w, c, "C11.accessor", []string{"IsObject", "IsLink"})
 	c.floor("C11.delegate", 12)
 	c.floor("C11.recurse", 13)
 	pr := newProver(w)
